@@ -3,7 +3,8 @@
    seedtest.py run <seed-id> [check ids...]   apply the seeded change to /repo, confirm (tests pass, demo fails), run the checks, undo.
 Never leaves /repo modified."""
 import json, os, shutil, subprocess, sys
-V = '/verif'
+V = os.environ.get('VERIF_DIR', '/verif')
+REPO = os.environ.get('VERIF_REPO', '/repo')      # a scratch clone of /repo can be used so that seeds are run while other checks read /repo
 def sh(cmd, **kw):
     return subprocess.run(cmd, shell=True, stdout=subprocess.PIPE, stderr=subprocess.STDOUT, text=True, **kw)
 def intake(pid):
@@ -18,22 +19,23 @@ def intake(pid):
 def run(sid, checks):
     d = '%s/seeded/%s' % (V, sid)
     meta = json.load(open(d + '/meta.json'))
-    assert sh('git -C /repo status --porcelain').stdout.strip() == '', '/repo not clean'
-    r = sh('git -C /repo apply %s/patch.diff' % d)
+    assert sh('git -C %s status --porcelain' % REPO).stdout.strip() == '', REPO + ' not clean'
+    r = sh('git -C %s apply %s/patch.diff' % (REPO, d))
     out = {'applies': r.returncode == 0, 'apply_msg': r.stdout[-300:]}
+    env = 'env VERIF_REPO=%s PYTHONPATH=%s/src:%s/harness PYTHONHASHSEED=0 PYTHONDONTWRITEBYTECODE=1' % (REPO, REPO, V)
     try:
         if out['applies']:
-            b = sh('python3 %s/tools/baseline.py' % V); out['tests_pass'] = 'missing 0' in b.stdout
-            dm = sh('timeout 120 env PYTHONPATH=/repo/src /venv/bin/python %s/demo.py' % d, cwd='/'); out['demo_fails_with_change'] = dm.returncode != 0
+            b = sh('python3 %s/tools/baseline.py %s' % (V, REPO)); out['tests_pass'] = 'missing 0' in b.stdout
+            dm = sh('timeout 120 env PYTHONPATH=%s/src /venv/bin/python %s/demo.py' % (REPO, d), cwd='/'); out['demo_fails_with_change'] = dm.returncode != 0
             out['demo_msg'] = dm.stdout[-300:]
             out['checks'] = {}
             for c in checks or [meta['property']]:
-                cr = sh('timeout 3000 %s/check %s --tier quick' % (V, c), cwd=V)
+                cr = sh('timeout 3000 %s /venv/bin/python -u %s/harness/check.py %s --tier quick' % (env, V, c), cwd=V)
                 out['checks'][c] = {'exit': cr.returncode, 'lines': [l[:300] for l in cr.stdout.splitlines() if l.startswith(('VIOLATION', 'KNOWN', c))][:6]}
     finally:
-        sh('git -C /repo reset -q --hard HEAD && git -C /repo clean -fdq src')
+        sh('git -C %s reset -q --hard HEAD && git -C %s clean -fdq src' % (REPO, REPO))
     if out['applies']:
-        dm = sh('timeout 120 env PYTHONPATH=/repo/src /venv/bin/python %s/demo.py' % d, cwd='/'); out['demo_passes_without'] = dm.returncode == 0
+        dm = sh('timeout 120 env PYTHONPATH=%s/src /venv/bin/python %s/demo.py' % (REPO, d), cwd='/'); out['demo_passes_without'] = dm.returncode == 0
     meta['verified'] = out
     json.dump(meta, open(d + '/meta.json', 'w'), indent=1)
     print(json.dumps(out, indent=1))
